@@ -11,7 +11,11 @@ PROP = dict(
          "failing operation of 15 kinds (inside the wrapper generated for an intrinsic used as a function value (array_get, divide_int; "
          "D92: attributed to the place where the function value is made), int/float division and remainder by zero, + * unary- ^ overflow, array read/write "
          "out of bounds, panic(), ! on option.none / result.err inside the prelude) in 9 statement contexts incl. multi-line "
-         "calls; plus hard probes: two three-file programs with a 65600-element int array literal in <main> (more than 65536 distinct "
+         "calls; plus 22 D109 programs (callee kinds: function, method, struct constructor, variant constructor with DEFAULT argument values "
+         "declared in lib.abra on other lines, called from main.abra at top level and inside a function with the default omitted; failure "
+         "inside the callee, inside the default's own expression (located at the declaration, in the calling function), inside a function "
+         "the default calls, after the call on the same line, multi-line call (last written argument), nested calls, named argument); "
+         "plus hard probes: two three-file programs with a 65600-element int array literal in <main> (more than 65536 distinct "
          "constants) in which immediates with late constants — expanded into push + plain instruction by expand_immediates — precede the "
          "failing site (division by zero in leaf.abra at depth 3; array index out of bounds in helper.abra after a finished call) and the "
          "call site of every frame; the model's input is the FINAL instruction list (optimized assembly with each expanded immediate "
